@@ -83,6 +83,69 @@ def const_str(repo, fi, node):
     return None
 
 
+def _constructor_bound_public_name(repo, fi, call):
+    """getattr(x, self.<attr>) in a method of a private class of the core
+    whose constructor binds <attr> to one of its parameters, every
+    instantiation of the class passing a string literal there (or a
+    conditional expression of string literals) that is a public identifier:
+    the same as writing x.<that name>."""
+    nm = call.args[1]
+    if fi.cls is None or not fi.module.name.startswith('yaql.language') \
+            or not fi.cls.node.name.startswith('_') or not fi.params():
+        return False
+    if not (isinstance(nm, ast.Attribute) and isinstance(
+            nm.value, ast.Name) and nm.value.id == fi.params()[0]):
+        return False
+    init = fi.cls.methods.get('__init__')
+    if init is None:
+        return False
+    src = None
+    for st in model.walk_shallow(init.node):
+        if isinstance(st, ast.Assign) and any(
+                isinstance(t, ast.Attribute) and t.attr == nm.attr and
+                isinstance(t.value, ast.Name) and
+                t.value.id == init.params()[0] for t in st.targets):
+            if src is not None or not (isinstance(st.value, ast.Name) and
+                                       st.value.id in init.params()):
+                return False
+            src = init.params().index(st.value.id) - 1
+    if src is None:
+        return False
+    # the attribute is bound nowhere else
+    for m in fi.cls.methods.values():
+        if m is init:
+            continue
+        for x in ast.walk(m.node):
+            if isinstance(x, ast.Attribute) and x.attr == nm.attr and \
+                    isinstance(x.ctx, (ast.Store, ast.Del)):
+                return False
+    pname = init.params()[src + 1]
+    sites = [c for c in ast.walk(fi.module.tree)
+             if isinstance(c, ast.Call) and isinstance(
+                 c.func, ast.Name) and c.func.id == fi.cls.node.name]
+    other = [x for x in ast.walk(fi.module.tree) if isinstance(
+        x, ast.Name) and x.id == fi.cls.node.name and isinstance(
+        x.ctx, ast.Load) and not any(c.func is x for c in sites)]
+    if not sites or other:
+        return False
+
+    def literal_names(e):
+        if isinstance(e, ast.Constant) and isinstance(e.value, str):
+            return [e.value]
+        if isinstance(e, ast.IfExp):
+            a, b = literal_names(e.body), literal_names(e.orelse)
+            return a + b if a and b else []
+        return []
+    for c in sites:
+        arg = c.args[src] if src < len(c.args) else next(
+            (k.value for k in c.keywords if k.arg == pname), None)
+        names = literal_names(arg) if arg is not None else []
+        if not names or not all(s_.isidentifier() and
+                                not s_.startswith('_') for s_ in names):
+            return False
+    return True
+
+
 def _fixed_public_names_on_library_value(repo, uni, fi, call):
     """getattr(x, name) where `name` ranges over a module-level table of
     public identifiers and x is a parameter declared with a python library
@@ -146,6 +209,9 @@ def find_sinks(repo, uni, fi):
                 lit = const_str(repo, fi, n.args[1])
                 if lit is None and _fixed_public_names_on_library_value(
                         repo, uni, fi, n):
+                    continue
+                if lit is None and _constructor_bound_public_name(
+                        repo, fi, n):
                     continue
                 if lit is None:
                     # a sink when the object or the name can come from
@@ -1130,6 +1196,18 @@ def check_side_doors(repo, rep):
     ik = ut.func('is_keyword')
     src = ut.constants.get('KEYWORD_REGEX')
     ok = src is not None and 't_KEYWORD_STRING' in model.norm(src)
+    if src is not None and not ok:
+        # ... or a constant of the lexer module whose text IS that rule's
+        # regular expression
+        for x in ast.walk(src):
+            d = repo.resolve(ut, x) if isinstance(
+                x, (ast.Attribute, ast.Name)) else None
+            tgt = repo.lookup(d) if d else None
+            if isinstance(tgt, tuple) and tgt and tgt[0] == 'const' and \
+                    isinstance(tgt[2], ast.Constant) and isinstance(
+                        tgt[2].value, str) and \
+                    tgt[2].value.strip() == doc.strip():
+                ok = True
     rep.ob('R07g', ik.key + '/same-regex', ok,
            'utils.is_keyword must use the lexer\'s keyword regex',
            loc=ut.loc(ik.node))
